@@ -754,6 +754,12 @@ def handle (line : String) : String :=
           hasPrefix mime (ofString "model/gltf+json") || hasPrefix mime (ofString "application/x-ndjson")
         if d > Gen.Json.maxRecursion + 1 && jsonFamily then "SPEC C16:nesting-beyond-the-cap-reported-as-json" else "OK"
       | _ => "SPEC C16:detection-did-not-survive-the-bomb(" ++ goRes ++ ") ; SPEC C01:detection-crashed-on-deep-nesting"
+    | ["extflip", _hx] =>
+      match goRes.splitOn " " with
+      | [got, r0, rfinal] =>
+        if got == r0 || got == rfinal then "OK"
+        else "SPEC C06:result-is-not-a-sequential-result-for-any-set-of-extensions-in-force-during-the-call ; SPEC C14:result-mixes-two-states-of-the-tree"
+      | _ => "SPEC C01:no-result(" ++ goRes ++ ")"
     | ["limflip", _l1, _l2, _hx] => flipJudge goRes
     | ["matchflip", _l1, _l2, _hx] => flipJudge goRes
     | ["fmt", th, vh] =>
